@@ -153,6 +153,12 @@ func errClass(err error) string {
 // observe executes the scenario once on a freshly built GetOpt under one iteration-order schedule
 // and serialises every observable canonically (one labelled line per observable).
 func observe(sc *Scenario, ord Order, st *obsStats) (out string) {
+	return observeArgv(sc, ord, st, nil)
+}
+
+// observeArgv: shared != nil makes Parse receive that very slice (the caller's own argv, reused
+// between executions); otherwise every execution gets a fresh copy.
+func observeArgv(sc *Scenario, ord Order, st *obsStats, shared []string) (out string) {
 	pol := simrt.Policy{Kind: "uniform", MapMode: ord.Base}
 	ch := simrt.NewRandomChooser(ord.Seed, pol, false)
 	base := ord.Base
@@ -224,7 +230,11 @@ func observe(sc *Scenario, ord Order, st *obsStats) (out string) {
 					}
 					argv = []string{"prog", cur, prev}
 				}
-				rem, err := opt.Parse(append([]string(nil), argv...))
+				in := append([]string(nil), argv...)
+				if mode == "parse" && shared != nil {
+					in = shared
+				}
+				rem, err := opt.Parse(in)
 				fmt.Fprintf(&b, "%s.remaining=%q\n%s.error=%s\n%s.exit=%d\n%s.completions=%q\n", mode, rem, mode, errClass(err), mode, exit, mode, cw.String())
 				if mode == "parse" {
 					for _, n := range nodes {
@@ -301,7 +311,10 @@ type disagreement struct {
 // check runs the scenario under k orders plus a repetition and returns the first disagreement.
 func check(sc *Scenario, seed uint64, k int, st *obsStats, nexec *int) *disagreement {
 	os := orders(seed, k)
-	base := observe(sc, os[0], st)
+	// the caller's argv slice: the first and the last execution pass the very same slice object
+	// (a program parsing os.Args twice); an implementation that scribbles on it has hidden state
+	callerArgv := append(make([]string, 0, len(sc.Argv)+4), sc.Argv...)
+	base := observeArgv(sc, os[0], st, callerArgv)
 	*nexec++
 	for _, o := range os[1:] {
 		got := observe(sc, o, st)
@@ -311,7 +324,7 @@ func check(sc *Scenario, seed uint64, k int, st *obsStats, nexec *int) *disagree
 		}
 	}
 	// hidden state: the very same schedule again, after the others ran in this process
-	again := observe(sc, os[0], st)
+	again := observeArgv(sc, os[0], st, callerArgv)
 	*nexec++
 	if again != base {
 		return &disagreement{os[0], os[0], firstDiff(base, again), "repeat"}
@@ -361,6 +374,28 @@ type BatchSpec struct {
 	Workers int    `json:"workers"`
 	Index   uint64 `json:"index"`
 	K       int    `json:"orders_per_scenario"`
+	// ProcessState: the violation is "observation after the batch differs from a fresh process"
+	ProcessState bool `json:"process_state,omitempty"`
+}
+
+func strHash(s string) uint64 {
+	h := uint64(14695981039346656037)
+	for i := 0; i < len(s); i++ {
+		h ^= uint64(s[i])
+		h *= 1099511628211
+	}
+	return h
+}
+
+// freshObservation asks a fresh process for the base observation hash of scenario idx.
+func freshObservation(seed, idx uint64) (string, bool) {
+	cmd := exec.Command(os.Args[0], "-seed", fmt.Sprint(seed), "-obs", fmt.Sprint(idx))
+	cmd.Env = os.Environ()
+	out, err := cmd.Output()
+	if err != nil {
+		return "", false
+	}
+	return strings.TrimSpace(string(out)), true
 }
 
 func freshReplay(path string) int {
@@ -387,9 +422,10 @@ func clone(sc *Scenario) *Scenario {
 // set of orders (shuffle permutations shift when the number of MapKeys calls changes).
 func differs(sc *Scenario, d *disagreement, seed uint64) *disagreement {
 	if d.kind == "repeat" {
-		a := observe(sc, d.a, nil)
+		callerArgv := append(make([]string, 0, len(sc.Argv)+4), sc.Argv...)
+		a := observeArgv(sc, d.a, nil, callerArgv)
 		for i := 0; i < 3; i++ {
-			if b := observe(sc, d.a, nil); b != a {
+			if b := observeArgv(sc, d.a, nil, callerArgv); b != a {
 				return &disagreement{d.a, d.a, firstDiff(a, b), "repeat"}
 			}
 		}
@@ -656,6 +692,7 @@ func main() {
 	merge := flag.String("merge", "", "")
 	dump := flag.Int64("dump", -1, "print scenario and its observation")
 	dethash := flag.Int("dethash", 0, "determinism mode")
+	obsIdx := flag.Int64("obs", -1, "print the hash of the base observation of this scenario index (fresh-process reference) and exit")
 	realRuns := flag.Int("realruns", 0, "real-runtime mode (built with -tags passthrough against the uninstrumented tree): native map order, 9 executions per scenario")
 	flag.Parse()
 	if *merge != "" {
@@ -674,6 +711,11 @@ func main() {
 		b, _ := json.MarshalIndent(sc, "", " ")
 		fmt.Println(string(b))
 		fmt.Println(observe(sc, Order{Base: "asc"}, nil))
+		return
+	}
+	if *obsIdx >= 0 {
+		sc := Generate(simrt.Mix(*seed, 20, uint64(*obsIdx)))
+		fmt.Printf("%016x\n", strHash(observe(sc, Order{Base: "asc"}, nil)))
 		return
 	}
 	if *dethash > 0 {
@@ -747,6 +789,14 @@ func main() {
 		}
 		base := observe(sc, Order{Base: "asc"}, nil)
 		probeScenario(sc, base, w.Probes)
+		// Hidden state across definitions: every 16th scenario is also observed in a fresh process;
+		// the observation there must equal the one made here after thousands of other executions.
+		if d == nil && !simrt.RealRuntime && i%16 == 15 {
+			w.Probes["fresh_process_cross_checks"]++
+			if ref, ok := freshObservation(*seed, idx); ok && ref != fmt.Sprintf("%016x", strHash(base)) {
+				d = &disagreement{Order{Base: "asc"}, Order{Base: "asc"}, "the observation made in this process (after " + fmt.Sprint(i) + " earlier scenarios) differs from the observation of the same scenario in a fresh process", "process-state"}
+			}
+		}
 		if strings.Contains(base, "SIM-VERDICT") {
 			w.Inconclusive = fmt.Sprintf("scenario %d: %s", idx, base[strings.Index(base, "SIM-VERDICT"):])
 			break
@@ -756,6 +806,21 @@ func main() {
 				"orders": fmt.Sprint(orders(rs, k)), "map_order_decisions": st.mapDecisions, "observation_under_asc_head": headLines(base, 8)}
 			b, _ := json.Marshal(s)
 			w.Samples = append(w.Samples, b)
+		}
+		if d != nil && d.kind == "process-state" {
+			path := filepath.Join(*replayDir, fmt.Sprintf("C20-%d-%d.json", *seed, idx))
+			os.MkdirAll(*replayDir, 0o755)
+			rf := &ReplayFile{Property: "C20", Oracle: "O20-process-state", Kind: d.kind, BaseSeed: *seed, Index: idx, OrderA: d.a, OrderB: d.b,
+				Scenario: sc, Definition: sc.DefinitionCalls(), Diff: d.diff, Message: "same definition and input, different result depending on what was executed earlier in the process (hidden state): " + d.diff,
+				Batch: &BatchSpec{Seed: *seed, Worker: *worker, Workers: *workers, Index: idx, K: k, ProcessState: true}}
+			b, _ := json.MarshalIndent(rf, "", " ")
+			os.WriteFile(path, b, 0o644)
+			if freshReplay(path) != 1 {
+				w.Inconclusive = fmt.Sprintf("scenario %d: process-state disagreement did not reproduce as a batch", idx)
+				break
+			}
+			w.Violation, w.ReplayPath = rf, path
+			break
 		}
 		if d != nil {
 			msc, md := shrink(sc, d, rs, 20*time.Second)
@@ -838,11 +903,15 @@ func headLines(s string, n int) []string {
 
 // differsExact replays the recorded pair of orders; returns the first difference ("" = none).
 func differsExact(rf *ReplayFile) string {
-	a := observe(rf.Scenario, rf.OrderA, nil)
-	b := observe(rf.Scenario, rf.OrderB, nil)
+	callerArgv := append(make([]string, 0, len(rf.Scenario.Argv)+4), rf.Scenario.Argv...)
+	if rf.Kind != "repeat" {
+		callerArgv = nil
+	}
+	a := observeArgv(rf.Scenario, rf.OrderA, nil, callerArgv)
+	b := observeArgv(rf.Scenario, rf.OrderB, nil, callerArgv)
 	if rf.Kind == "repeat" {
 		for i := 0; i < 3 && a == b; i++ {
-			b = observe(rf.Scenario, rf.OrderB, nil)
+			b = observeArgv(rf.Scenario, rf.OrderB, nil, callerArgv)
 		}
 	}
 	if a == b {
@@ -874,7 +943,16 @@ func doReplay(path string) int {
 			rs := simrt.Mix(bs.Seed, 20, idx)
 			sc := Generate(rs)
 			d := check(sc, rs, bs.K, nil, &n)
-			observe(sc, Order{Base: "asc"}, nil)
+			last := observe(sc, Order{Base: "asc"}, nil)
+			if idx == bs.Index && bs.ProcessState {
+				ref, ok := freshObservation(bs.Seed, idx)
+				if ok && ref != fmt.Sprintf("%016x", strHash(last)) {
+					fmt.Println("  the observation after the batch differs from the observation in a fresh process")
+					fmt.Printf("VIOLATION property=C20 replay=%s\n", path)
+					return 1
+				}
+				break
+			}
 			if idx == bs.Index && d != nil {
 				fmt.Println("  first difference:", d.diff)
 				fmt.Printf("VIOLATION property=C20 replay=%s\n", path)
